@@ -540,10 +540,14 @@ fn multiline_string_doc(trivia: &Trivia, segments: &[StrSegment]) -> Doc {
                 }
             }
             StrSegment::Hole(expression) => {
+                // The chains of a multi-line string's hole are parsed from the de-indented text, so
+                // their span offsets are relative to the string, not the file: looked up in the
+                // file's trivia maps they would pick up some other node's comments/blank lines.
+                let no_trivia = trivia.without_comments();
                 let body = expression
                     .branches
                     .iter()
-                    .map(|branch| pretty::flatten(&branch_doc(trivia, branch, false)))
+                    .map(|branch| pretty::flatten(&branch_doc(&no_trivia, branch, false)))
                     .collect::<Vec<_>>()
                     .join(" | ");
                 let line = lines.last_mut().unwrap();
@@ -779,6 +783,15 @@ struct Trivia {
 }
 
 impl Trivia {
+    /// A view with no comments or blank lines.
+    fn without_comments(&self) -> Trivia {
+        Trivia {
+            leading: HashMap::new(),
+            trailing: HashMap::new(),
+            dangling: Vec::new(),
+        }
+    }
+
     /// Recover trivia from `source` and attach each item to an AST node: a leading comment/blank to
     /// the nearest following node, a trailing comment to the node whose text it follows.
     fn collect(program: &Program, source: &str) -> Trivia {
